@@ -876,6 +876,8 @@ pub struct StepOutcome {
     pub pos_after: Option<SimPosition>,
     /// Funding fee amount collected in the collateral token by this step (see `Ledger::funding_collected`).
     pub funding_collected: u128,
+    /// Claimable funding amounts (long token, short token) paid out by this step.
+    pub claimable_funding_out: [u128; 2],
     /// LP the step acted on.
     pub lp: Option<usize>,
     /// Number of fallible storage calls the transaction made.
@@ -1195,6 +1197,7 @@ impl World {
             pos_before: None,
             pos_after: None,
             funding_collected: 0,
+            claimable_funding_out: [0, 0],
             lp: None,
             fallible_calls: 0,
             fault_planned: 0,
@@ -1364,6 +1367,7 @@ impl World {
                     Ledger::add(&mut self.ledger.claimable_funding_out, &mut self.ledger.total_out, true, cl);
                     Ledger::add(&mut self.ledger.claimable_funding_out, &mut self.ledger.total_out, false, cs);
                     out.flows.token_out = [cl, cs];
+                    out.claimable_funding_out = [cl, cs];
                     self.ledger.funding_charged[side(coll_long)] +=
                         BigUint::from(*rep.fees().funding_fees().amount());
                     out.funding_collected = *rep.fees().funding_fees().amount();
@@ -1426,6 +1430,7 @@ impl World {
                     add(&mut lg.decrease_out, &mut lg.total_out, out_long, *rep.output_amount());
                     add(&mut lg.decrease_out, &mut lg.total_out, sec_long, *rep.secondary_output_amount());
                     let (cl, cs) = rep.claimable_funding_amounts();
+                    out.claimable_funding_out = [*cl, *cs];
                     add(&mut lg.claimable_funding_out, &mut lg.total_out, true, *cl);
                     add(&mut lg.claimable_funding_out, &mut lg.total_out, false, *cs);
                     let h = rep.claimable_collateral_for_holding();
